@@ -177,8 +177,9 @@ def allowedRel (cfgs : List CfgSpec) (k : Nat) : List Char :=
 def parseTok (cfgs : List CfgSpec) (s : String) : Option TokSpec :=
   match s.splitOn ":" with
   | [ks, as, rs] =>
-    match canonNat ks, addrOfName as, rs.toList with
+    match canonNat ks, addrOfName as, rs.toList.map Char.toLower with   -- upper case: through reverse_proxy
     | some k, some a, [r] =>
+      if rs.toList != [r] && a == pktV0 then none else   -- no proxied request over the seqpacket address
       if k < 1 || k > cfgs.length then none else
       match runningBefore cfgs k with
       | some o =>
@@ -486,6 +487,11 @@ def validateEvent (sc : Scenario) (s : State) (ev : String) : Verdict :=
         | some a => stepV s (.adminReplace k (some a)) "adminReplace"
         | none => .bad "parse"
       | none => .bad "parse"
+    | ["K", gs], [] =>
+      -- the first Cleanup of a config is about to run: its context has been cancelled
+      match gs.toNat? with
+      | some g => stepV s (.cancelCtx g) "cancelCtx"
+      | none => .bad "parse"
     | ["W", _], [] => stepV s .swap "swap"
     | ["J", _], [] => stepV s .reject "reject"
     | ["Z", ks], [] =>
@@ -522,7 +528,8 @@ def validateEvent (sc : Scenario) (s : State) (ev : String) : Verdict :=
     | ["F", gs, ts], [res] =>
       match gs.toNat?, tokId ts with
       | some g, some t =>
-        if res != String.ofList [genCh g] then .bad "in-flight-request-not-answered-by-acceptor"
+        if res.endsWith "!" then .bad "in-flight-request-context-cancelled" -- the model keeps it: ctxLost = []
+        else if res != String.ofList [genCh g] then .bad "in-flight-request-not-answered-by-acceptor"
         else stepV s (.complete t g) "complete"
       | _, _ => .bad "parse"
     | [kind, gs, mod], [snap, ans] =>
